@@ -41,7 +41,7 @@ def run(prog, rep, tier):
     r9_2(prog, rep, dm)
     r9_3(prog, rep)
     r9_4(prog, rep)
-    rep.floor("R9.1", 7)
+    rep.floor("R9.1", 4)
     rep.floor("R9.2", 5)
     rep.floor("R9.4", 12)
 
@@ -52,125 +52,190 @@ def _count_positive(test, var):
     return t in (f"{var} > 0", f"{var} >= 1", f"{var} != 0", f"0 < {var}", f"1 <= {var}", var, f"0 != {var}", f"bool({var})")
 
 
+def policy_outcomes(prog, dm):
+    """Partial + symbolic evaluation of design_matrices for each value of na_action: what frame reaches DesignMatrices(...),
+    under which condition an exception is raised.  {value: dict(raises=[path...], frames=[(path, value)])}"""
+    from .. import symexec as SX
+
+    var = "na_action" if "na_action" in dm.params else dm.params[2]
+    out = {}
+    for value in ("drop", "error", "pass", "<any other value>"):
+        ex = SX.SymExec(decide=shared.option_decider(prog, dm, var, value), watch={"DesignMatrices"})
+        ex.run(dm.body)
+        raises = [e for e in ex.effects if e[0] == "raise"]
+        frames = [(e[2], e[1][1][1] if len(e[1][1]) > 1 else None, e[1][2]) for e in ex.effects if e[0] == "watch"]
+        out[value] = dict(raises=raises, frames=frames, ex=ex)
+    # argument validation that is independent of na_action (formula is a string, data is a non-empty frame, ...) raises in
+    # every run alike: those raises, and their conditions, are ambient
+    common = None
+    for value, o in out.items():
+        keys = {(tuple(e[2]), unparse(e[1][0])) for e in o["raises"]}
+        common = keys if common is None else common & keys
+    ambient_conds = {c for (path, _r) in (common or set()) for (c, _t) in path}
+    for value, o in out.items():
+        o["raises"] = [(e[0], e[1], tuple(x for x in e[2] if x[0] not in ambient_conds)) for e in o["raises"]
+                       if (tuple(e[2]), unparse(e[1][0])) not in common]
+        o["frames"] = [(tuple(x for x in p if x[0] not in ambient_conds), v, n) for p, v, n in o["frames"]]
+        o["effects"] = [e for e in o["ex"].effects if not (e[0] == "raise" and (tuple(e[2]), unparse(e[1][0])) in common)]
+    return out
+
+
+def _mask_conditions(D):
+    M = [f"{D}.isna().any(axis=1)", f"{D}.isnull().any(axis=1)"]
+    pos, neg = set(), set()
+    for m in M:
+        pos |= {f"{m}.sum() > 0", f"{m}.sum() >= 1", f"{m}.sum() != 0", f"{m}.any()", f"{m}.sum()", f"0 < {m}.sum()", f"len({D}.index[{m}]) > 0",
+                f"len({D}[{m}]) > 0", f"{m}.values.any()", f"bool({m}.any())"}
+        neg |= {f"{m}.sum() == 0", f"{m}.sum() < 1", f"{m}.sum() <= 0", f"not {m}.any()", f"not {m}.sum()", f"len({D}.index[{m}]) == 0",
+                f"len({D}[{m}]) == 0"}
+    return M, pos, neg
+
+
+def _cond_means_incomplete(path, D):
+    """the path condition says exactly 'at least one row of D has a missing value': True; 'none has': False; else None"""
+    _, pos, neg = _mask_conditions(D)
+    if len(path) != 1:
+        return None
+    c, taken = path[0]
+    if c in pos:
+        return taken
+    if c in neg:
+        return not taken
+    return None
+
+
+def frames_summary(prog, dm):
+    """for other properties: (D, set of (na_action value, leaf text, leaf path) reaching DesignMatrices, filtered forms)"""
+    from .. import symexec as SX
+
+    O = policy_outcomes(prog, dm)
+    ps = O["pass"]
+    vals = {SX.render(v) for _, v, _ in ps["frames"] if v is not None and not isinstance(v, SX.Ite)}
+    D = next(iter(vals)) if len(vals) == 1 else None
+    leaves = []
+
+    def walk(v, path, value, node):
+        if isinstance(v, SX.Ite):
+            walk(v.a, path + ((v.cond, True),), value, node)
+            walk(v.b, path + ((v.cond, False),), value, node)
+        elif v is not None:
+            leaves.append((value, SX.render(v), path, node))
+
+    for value in ("drop", "error", "pass"):
+        for path, v, node in O[value]["frames"]:
+            walk(v, tuple(path), value, node)
+    filtered = set()
+    if D is not None:
+        M, _, _ = _mask_conditions(D)
+        filtered = {f"{D}[~{m}]" for m in M} | {f"{D}.loc[~{m}]" for m in M} | {f"{D}[~{m}].copy()" for m in M} | {f"{D}.loc[~{m}, :]" for m in M}
+    return D, leaves, filtered
+
+
 def r9_1(prog, rep, dm):
-    c = cfg_of(dm)
-    # validation guard
-    guard = None
-    for i in dm.body:
-        if isinstance(i, ast.If) and block_raises(i.body) and isinstance(i.test, ast.Compare) and unparse(i.test.left) == "na_action" \
-                and isinstance(i.test.ops[0], ast.NotIn) and isinstance(i.test.comparators[0], (ast.List, ast.Tuple, ast.Set)) \
-                and all(is_str_const(e) for e in i.test.comparators[0].elts):
-            guard = i
-    obl(rep, dm, guard or dm.node, "R9.1", guard is not None, "a raising membership guard validates na_action against a literal set",
-        unparse(guard.test) if guard else "", "na_action is not validated: any other value is silently treated as one of the policies")
-    if guard is None:
+    """The missing-value policy, decided on the outcomes of design_matrices specialised for every value of na_action."""
+    from .. import symexec as SX
+
+    try:
+        O = policy_outcomes(prog, dm)
+    except AnalysisError as e:
+        rep.defer(f"R9.1: {e}")
         return
-    valid = [e.value for e in guard.test.comparators[0].elts]
-    obl(rep, dm, guard, "R9.1", sorted(valid) == ["drop", "error", "pass"], f"validated literals are exactly drop/error/pass", str(valid),
-        f"na_action accepts {valid}")
-    gn = c.node_of(guard)
-    effects = [x for x in calls_in(dm.node) if dotted(x.func) in ("model_description", "DesignMatrices", "Environment.capture")]
-    effects += [s for s in walk_local(dm.node) if isinstance(s, ast.Assign) and unparse(s.targets[0]) == "data"]
-    ok = all(c.dominates(gn, c.node_of(e)) for e in effects) and len(effects) >= 4
-    obl(rep, dm, guard, "R9.1", ok, "the validation guard dominates parsing, environment capture, every re-binding of data and the design construction")
-    # the policy chain
-    chains = [i for i in walk_local(dm.node) if isinstance(i, ast.If) and isinstance(i.test, ast.Compare)
-              and unparse(i.test.left) == "na_action" and isinstance(i.test.ops[0], ast.Eq) and is_str_const(i.test.comparators[0])]
-    heads = [i for i in chains if not any(i in getattr(j, "orelse", []) for j in chains)]
-    if len(heads) != 1:
-        raise AnalysisError("design_matrices: expected one if/elif chain on na_action")
-    node = heads[0]
-    handled = {}
-    default = None
-    while True:
-        handled[node.test.comparators[0].value] = node.body
-        if len(node.orelse) == 1 and isinstance(node.orelse[0], ast.If) and node.orelse[0] in chains:
-            node = node.orelse[0]
-        else:
-            default = node.orelse
-            break
-    unknown = sorted(set(handled) - set(valid))
-    obl(rep, dm, heads[0], "R9.1", not unknown, "every literal compared with na_action is a validated value", str(sorted(handled)),
-        f"literal(s) {unknown} are compared with na_action but can never pass validation (dead policy branch / typo)")
-    rest = sorted(set(valid) - set(handled))
-    ok = (len(rest) == 1 and default and block_raises(default)) or (not rest and not default)
-    obl(rep, dm, heads[0], "R9.1", ok,
-        f"the chain is exhaustive: handled {sorted(handled)}; remaining literal {rest} falls into the final else",
-        "", f"validated value(s) {rest} are not handled by exactly one final else branch")
+    # any other value: refused before anything else happens
+    other = O["<any other value>"]
+    first = other["effects"][0] if other["effects"] else None
+    ok = first is not None and first[0] == "raise" and not other["frames"] and len(other["raises"]) == 1 and other["raises"][0][2] == ()
+    obl(rep, dm, first[1][0] if first and first[0] == "raise" else dm.node, "R9.1", ok,
+        "an na_action other than drop / error / pass is refused before parsing, environment capture and construction", "",
+        "na_action is not validated first: another value is silently treated as one of the policies")
+    # pass: the selected frame reaches the design unchanged, on every path, nothing raises
+    ps = O["pass"]
+    vals = {SX.render(v) for _, v, _ in ps["frames"] if v is not None}
+    D = None
+    if len(vals) == 1 and not any(isinstance(v, SX.Ite) for _, v, _ in ps["frames"]):
+        D = next(iter(vals))
+    obl(rep, dm, ps["frames"][0][2] if ps["frames"] else dm.node, "R9.1", D is not None and not ps["raises"],
+        "'pass': the frame of used columns reaches the design unchanged (all rows kept, in order), nothing raises", str(sorted(vals)),
+        f"'pass' hands {sorted(vals)} to the design / raises {len(ps['raises'])} time(s): rows are dropped, reordered or refused")
+    if D is None:
+        return
+    M, pos, neg = _mask_conditions(D)
+    filtered = {f"{D}[~{m}]" for m in M} | {f"{D}.loc[~{m}]" for m in M} | {f"{D}[~{m}].copy()" for m in M} | {f"{D}.loc[~{m}, :]" for m in M}
 
-    def rebinds(body):
-        return [s for s in body for n in ast.walk(s) if isinstance(n, ast.Assign) and any(unparse(t) == "data" for t in n.targets)]
+    def leaves(v, path=()):
+        if isinstance(v, SX.Ite):
+            return leaves(v.a, path + ((v.cond, True),)) + leaves(v.b, path + ((v.cond, False),))
+        return [(path, SX.render(v))]
 
-    if "pass" in handled:
-        obl(rep, dm, heads[0], "R9.1", not rebinds(handled["pass"]), "'pass': data is not re-bound (all rows kept, in order)", "",
-            "'pass' re-binds data: rows are dropped or reordered")
-    if "drop" in handled:
-        rb = rebinds(handled["drop"])
-        vals = [unparse(n.value) for s in handled["drop"] for n in ast.walk(s) if isinstance(n, ast.Assign) and any(unparse(t) == "data" for t in n.targets)]
-        ok = vals in (["data[~incomplete_rows]"], ["data.loc[~incomplete_rows]"], ["data[~incomplete_rows].copy()"])
-        obl(rep, dm, heads[0], "R9.1", ok, "'drop': data is re-bound to data[~incomplete_rows]", str(vals),
-            f"'drop' re-binds data to {vals}: not exactly the incomplete rows are removed")
-    if "error" in handled:
-        obl(rep, dm, heads[0], "R9.1", block_raises(handled["error"]), "'error': raises")
-    elif rest == ["error"]:
-        r = [n for n in ast.walk(ast.Module(body=default, type_ignores=[])) if isinstance(n, ast.Raise)]
-        ok = bool(r) and dotted(r[0].exc.func) == "ValueError"
-        obl(rep, dm, default[0], "R9.1", ok, "'error' (the remaining literal): raise ValueError")
-    # the chain is guarded by "at least one incomplete row"
-    outer = [i for i in walk_local(dm.node) if isinstance(i, ast.If) and any(heads[0] is s for s in i.body)]
-    ok = len(outer) == 1
-    cnt = None
-    if ok:
-        cands = [s for s in walk_local(dm.node) if isinstance(s, ast.Assign) and isinstance(s.targets[0], ast.Name)
-                 and unparse(s.value) in ("incomplete_rows.sum()", "int(incomplete_rows.sum())", "incomplete_rows.values.sum()")]
-        ok = len(cands) == 1 and _count_positive(outer[0].test, cands[0].targets[0].id) and not outer[0].orelse
-        cnt = unparse(outer[0].test)
-    obl(rep, dm, outer[0] if outer else heads[0], "R9.1", ok,
-        "the policy chain runs iff at least one row is incomplete ('error' raises iff such a row exists)", str(cnt),
-        f"the policy chain is guarded by `{cnt}`: 'error' no longer raises exactly when an incomplete row exists")
+    # drop: exactly the incomplete rows are removed, by position (boolean mask), never by label
+    dr = O["drop"]
+    okd, why = bool(dr["frames"]) and not dr["raises"], []
+    for path, v, node in dr["frames"]:
+        for lp, txt in leaves(v, tuple(path)):
+            inc = _cond_means_incomplete(lp, D) if lp else None
+            if txt in filtered:
+                continue  # filtering is right whether or not a row is incomplete
+            if txt == D and lp and inc is False:
+                continue  # nothing to remove on this path
+            okd = False
+            why.append(f"under {list(lp) or 'every path'} the design gets `{txt}`")
+    obl(rep, dm, dr["frames"][0][2] if dr["frames"] else dm.node, "R9.1", okd,
+        "'drop': the design gets the frame filtered by the negated row mask of missing values (positional; the unfiltered frame only when no row is incomplete)",
+        "", "; ".join(why) + f" - expected `{D}[~{M[0]}]`: not exactly the incomplete rows are removed (a label-based drop also removes complete "
+        "rows that share an index label)")
+    # error: raises iff at least one row is incomplete
+    er = O["error"]
+    oke = len(er["raises"]) == 1 and _cond_means_incomplete(tuple(er["raises"][0][2]), D) is True
+    if oke:
+        r = er["raises"][0][1][0]
+        oke = isinstance(r.exc, ast.Call) and dotted(r.exc.func) == "ValueError"
+    for path, v, node in er["frames"]:
+        for lp, txt in leaves(v, tuple(path)):
+            if not (txt == D and _cond_means_incomplete(lp, D) is False):
+                oke = False
+    obl(rep, dm, er["raises"][0][1][0] if er["raises"] else dm.node, "R9.1", oke and bool(er["frames"]),
+        "'error': ValueError exactly when at least one row has a missing value in a used column; otherwise the frame is untouched",
+        str([list(e[2]) for e in er["raises"]]),
+        f"'error' raises under {[list(e[2]) for e in er['raises']]} and builds the design from {[SX.render(v) for _, v, _ in er['frames']]}: "
+        "it no longer raises exactly when an incomplete row exists")
+    # the validation comes first also in the sense of effects: nothing is parsed / captured for an invalid value
 
 
 def r9_2(prog, rep, dm):
-    c = cfg_of(dm)
-    assigns = [s for s in walk_local(dm.node) if isinstance(s, ast.Assign) and unparse(s.targets[0]) == "data"]
-    sel = [s for s in assigns if unparse(s.value) in ("data[list(cols_to_select)]", "data[sorted(cols_to_select)]", "data.loc[:, list(cols_to_select)]")]
-    ok = len(sel) == 1
-    obl(rep, dm, sel[0] if sel else dm.node, "R9.2", ok, "data is re-bound to the columns the formula uses", "",
-        "no column selection `data = data[list(cols_to_select)]` found")
-    if not ok:
+    """which frame the policy works on, decided on the symbolic value that reaches DesignMatrices under 'pass'"""
+    from .. import symexec as SX
+
+    try:
+        O = policy_outcomes(prog, dm)
+    except AnalysisError as e:
+        rep.defer(f"R9.2: {e}")
         return
-    cs = [s for s in walk_local(dm.node) if isinstance(s, ast.Assign) and unparse(s.targets[0]) == "cols_to_select"]
-    ok = len(cs) == 1 and unparse(cs[0].value) in ("description.var_names.intersection(set(data.columns))",
-                                                    "description.var_names & set(data.columns)",
-                                                    "set(data.columns).intersection(description.var_names)")
-    obl(rep, dm, cs[0] if cs else dm.node, "R9.2", ok, "the selected columns are description.var_names intersected with the frame's columns",
-        unparse(cs[0].value) if cs else "", f"cols_to_select = {unparse(cs[0].value) if cs else None}")
-    ds = [s for s in walk_local(dm.node) if isinstance(s, ast.Assign) and unparse(s.targets[0]) == "description"]
-    ok = len(ds) == 1 and unparse(ds[0].value) == "model_description(formula)"
-    obl(rep, dm, ds[0] if ds else dm.node, "R9.2", ok, "description is model_description(formula) of this very call")
-    isna = [x for x in calls_in(dm.node) if isinstance(x.func, ast.Attribute) and x.func.attr in ("isna", "isnull")]
-    ok = len(isna) == 1 and unparse(isna[0].func.value) == "data"
-    if ok:
-        # the only definition of `data` reaching isna is the column selection
-        n_is = c.node_of(isna[0])
-        n_sel = c.node_of(sel[0])
-        others = [c.node_of(s) for s in assigns if s is not sel[0]]
-        ok = c.dominates(n_sel, n_is) and not any(o in c.reachable(n_sel) and n_is in c.reachable(o) and c.dominates(n_sel, o) for o in others)
-    obl(rep, dm, isna[0] if isna else dm.node, "R9.2", ok,
-        "the missing-value mask is computed on the column-subset frame (missing values in unused columns are ignored)",
-        "", "isna() is applied to a frame other than the var_names selection")
-    m = [s for s in walk_local(dm.node) if isinstance(s, ast.Assign) and unparse(s.targets[0]) == "incomplete_rows"]
-    ok = len(m) == 1 and unparse(m[0].value) in ("data.isna().any(axis=1)", "data.isnull().any(axis=1)", "data.isna().any(axis='columns')")
-    obl(rep, dm, m[0] if m else dm.node, "R9.2", ok, "a row is incomplete iff any used column is missing (any over axis=1)",
-        unparse(m[0].value) if m else "", f"incomplete_rows = {unparse(m[0].value) if m else None}")
-    # the design is built after the policy was applied, from `data`
+    fr = O["pass"]["frames"]
+    ok = len(fr) >= 1 and all(v is not None and not isinstance(v, SX.Ite) for _, v, _ in fr) and len({SX.render(v) for _, v, _ in fr}) == 1
+    D = SX.render(fr[0][1]) if ok else None
+    desc = "model_description(formula)"
+    sets = (f"{desc}.var_names.intersection(set(data.columns))", f"{desc}.var_names & set(data.columns)",
+            f"set(data.columns).intersection({desc}.var_names)", f"set(data.columns) & {desc}.var_names")
+    forms = {f"data[list({x})]" for x in sets} | {f"data[sorted({x})]" for x in sets} | {f"data.loc[:, list({x})]" for x in sets}
+    obl(rep, dm, fr[0][2] if fr else dm.node, "R9.2", D in forms, "data is re-bound to the columns the formula uses",
+        str(D), f"the frame handed to the design is `{D}`, not the selection of description.var_names among the frame's columns: "
+        "missing values in unused columns are not ignored / used columns are lost")
+    if D not in forms:
+        return
+    obl(rep, dm, fr[0][2], "R9.2", True, "the selected columns are description.var_names intersected with the frame's columns", D, nontrivial=False)
+    # the design is built from the description of this very call
+    args0 = {SX.render(e[1][1][0]) for e in O["pass"]["ex"].effects if e[0] == "watch" and e[1][1]}
+    obl(rep, dm, fr[0][2], "R9.2", args0 == {desc}, "description is model_description(formula) of this very call", str(sorted(args0)),
+        f"DesignMatrices receives {sorted(args0)} as description")
+    # the mask: any missing value among the used columns, row-wise (R9.1 recognises the policy on exactly this mask)
+    M, _, _ = _mask_conditions(D)
+    txt = " ".join(SX.render(v) for _, v, _ in O["drop"]["frames"] if v is not None) + " " + \
+        " ".join(c for e in O["error"]["raises"] for c, _ in e[2])
+    obl(rep, dm, dm.node, "R9.2", any(m in txt for m in M),
+        "the missing-value mask is computed on the column-subset frame, any over axis=1 (missing values in unused columns are ignored)",
+        "", "the row mask is not `<selected frame>.isna().any(axis=1)`")
     cons = [x for x in calls_in(dm.node) if dotted(x.func) == "DesignMatrices"]
-    ok = len(cons) == 1 and [unparse(a) for a in cons[0].args] == ["description", "data", "env"]
-    if ok:
-        pol = [i for i in walk_local(dm.node) if isinstance(i, ast.If) and "incomplete_rows_n" in unparse(i.test)]
-        ok = bool(pol) and c.dominates(c.node_of(pol[0]), c.node_of(cons[0])) and c.dominates(c.node_of(sel[0]), c.node_of(cons[0]))
-    obl(rep, dm, cons[0] if cons else dm.node, "R9.2", ok,
-        "DesignMatrices(description, data, env) is constructed after the column selection and the policy chain")
+    obl(rep, dm, cons[0] if cons else dm.node, "R9.2", len(cons) >= 1 and all(len(x.args) == 3 for x in cons),
+        "DesignMatrices(description, data, env) is constructed after the column selection and the policy")
     # nothing is evaluated before: no .eval/.set_type/.evaluate call in design_matrices itself
     early = [x for x in calls_in(dm.node) if isinstance(x.func, ast.Attribute) and x.func.attr in ("eval", "evaluate", "set_type", "set_data", "set_types")]
     obl(rep, dm, early[0] if early else dm.node, "R9.2", not early, "design_matrices evaluates no term before the row filter")
